@@ -1,10 +1,12 @@
 /-
   C07 — nth_prime(n, start) returns exactly the documented prime or fails.
-  (the value theorem for the correction walks is work in progress; the theorems below cover
-  argument validation, the n = 0 mapping and the absence of the INT64_MIN negation)
+  Value theorem for every n and start, for arbitrary approximation functions; argument validation;
+  the n = 0 mapping; absence of the INT64_MIN negation.
 -/
 import PsModel.NthPrime
 import PsProofs.IterSim
+import PsProofs.NthPrime
+import PsProps.C04
 
 namespace Ps.Props
 open Ps Ps.Spec
@@ -56,5 +58,49 @@ theorem C07_negative_needs_room (env : Env) (kf : Nat → Nat) (cnt : Nat → Na
     · rfl
     · have : m ≥ start := h
       simp [this]
+
+/-- **C07 (value)** for EVERY int64 n with |n| ≤ π(2^64), every start < 2^64, every approximation oracle
+    (primePiApprox / nthPrimeApprox / avgPrimeGap / isqrt may return anything that fits 64 bits),
+    every generator block policy, and any count function that returns the number of primes of an
+    interval (C04): nth_prime(n, start) is
+    * n > 0: the n-th prime > start — `primeSeq (start+1) (n-1)` — or an error if that is ≥ 2^64;
+    * n = 0: the first prime ≥ start, or an error if there is none below 2^64;
+    * n < 0: the |n|-th prime < start — `prevSeq (start-1) (|n|-1)` — or an error when fewer than
+      |n| primes lie below start.  It never returns any other number. -/
+theorem C07_nth_value {env : Env} (henv : EnvOK env) (kf : Nat → Nat) (cnt : Nat → Nat → Nat)
+    (hcnt : ∀ a b, cnt a b = (primesIn a b).length) (o : NthOracle) (ho : ∀ x, o.nthA x ≤ umax)
+    (n : Int) (start : Nat) (hs : start ≤ umax) (hlo : -(max_n : Int) ≤ n) (hhi : n ≤ (max_n : Int)) :
+    nthPrime env kf cnt o n start =
+      if 0 < n then
+        (if primeSeq (start + 1) (n.toNat - 1) < U64 then .ok (primeSeq (start + 1) (n.toNat - 1)) else .error .overflow)
+      else if n = 0 then
+        (if nextPrime start < U64 then .ok (nextPrime start) else .error .overflow)
+      else
+        (if (-n).toNat ≥ start ∨ prevSeq (start - 1) ((-n).toNat - 1) = 0 then .error .invalid
+         else .ok (prevSeq (start - 1) ((-n).toNat - 1))) := by
+  unfold nthPrime
+  by_cases hneg : n < 0
+  · have h1 : ¬ (0 < n) := by omega
+    have h2 : ¬ (n = 0) := by omega
+    have h3 : ¬ n < -(max_n : Int) := by omega
+    simp only [hneg, h1, h2, h3, if_true, if_false]
+    exact Nth.nthPrimeNeg_value henv kf cnt hcnt o _ start (by omega) (by omega) hs
+  · by_cases h0 : n = 0
+    · subst h0
+      simp only [Int.lt_irrefl, if_false, if_true]
+      rw [Nth.nthPrimePos_value henv kf cnt hcnt o ho 1 _ (by omega) (by decide)
+        (by rw [checkedSub_one]; omega), checkedSub_one]
+      simp only [Nat.sub_self, primeSeq]
+      by_cases hst : start = 0
+      · subst hst; simp only [Nat.zero_sub, Nat.zero_add]; rw [← Nth.nextPrime_zero_one]
+      · rw [show start - 1 + 1 = start by omega]
+    · have hpos : 0 < n := by omega
+      simp only [hneg, h0, hpos, if_true, if_false]
+      exact Nth.nthPrimePos_value henv kf cnt hcnt o ho _ start (by omega) (by omega) hs
+
+/-- the count function of the model (C04) satisfies the hypothesis of `C07_nth_value` -/
+theorem C07_count_hypothesis {isP : Nat → Bool} (hP : IsPrimeOK isP) (a b : Nat) :
+    (primeSieveCounts isP a b 1).getD 0 0 = (primesIn a b).length := by
+  rw [C04_count_single hP a b 1 (by decide), C04_agrees_with_enumeration]
 
 end Ps.Props
